@@ -419,7 +419,12 @@ static psX509Crl_t *internalGetCrlForCert(psX509Cert_t *cert)
             /* This is the point where we want to make sure this CRL isn't
                expired.  We do this by looking at the nextUpdate time and
                seeing if we are beyond that */
-            if (nextUpdateTest(curr->nextUpdate, curr->nextUpdateType) < 0)
+            /* nextUpdate is OPTIONAL in the ASN.1 (psX509ParseCRL accepts a
+               CRL without it): nothing announces when such a CRL goes stale,
+               so it cannot be called expired - and it must not be handed to
+               the date parser as a NULL string. */
+            if (curr->nextUpdate != NULL &&
+                nextUpdateTest(curr->nextUpdate, curr->nextUpdateType) < 0)
             {
                 /* Got it, but it's expired */
                 curr->expired = 1;
